@@ -163,6 +163,8 @@ class Ctx:
         self.wrapped = self.appended_map = self.appended_out = None
         self.returned = None
         self.unknown = []           # structural complaints -> SUnknown
+        self.locals = {}            # local variable -> (mexpr text or None when opaque, bound inside the loop?)
+        self.assigned = set()       # (on_set, attribute) of the target assigned so far
 
 
 def resolve(ctx, node):
@@ -179,14 +181,184 @@ def is_name(node, name):
     return isinstance(node, ast.Name) and name is not None and node.id == name
 
 
+
+# ------------------------------------------------------------------ key-count functions as tables
+LOOKUPS = {}          # Coq identifier -> (kind, rows, default) of every table function met (emitted once, sorted)
+
+
+def _tv(v):
+    if v is None:
+        return "TVNone"
+    if isinstance(v, bool):
+        raise ValueError("bool in a lookup table")
+    if isinstance(v, int):
+        return f"TVInt {F.z(v)}"
+    if isinstance(v, str):
+        return f"TVText {text(v)}"
+    raise ValueError(f"untranslatable table value {v!r}")
+
+
+def lookup_table(fn):
+    """A live function whose SOURCE is exactly `if x == K1: return V1 elif x == K2: return V2 ... else: return D`
+    (keys all int or all str, values int / str / None) -> (Coq identifier, kind); anything else -> None.
+    The table is read off the function's own AST, constants resolved in the function's globals."""
+    import inspect
+    import textwrap
+    try:
+        fn = inspect.unwrap(fn)
+        src = textwrap.dedent(inspect.getsource(fn))
+        tree = ast.parse(src)
+    except (OSError, TypeError, SyntaxError):
+        return None
+    if len(tree.body) != 1 or not isinstance(tree.body[0], ast.FunctionDef):
+        return None
+    fd = tree.body[0]
+    a = fd.args
+    if a.vararg or a.kwarg or a.kwonlyargs or a.posonlyargs or a.defaults or len(a.args) != 1:
+        return None
+    if not all(is_name(d, "staticmethod") for d in fd.decorator_list):
+        return None
+    param = a.args[0].arg
+    body = [st for st in fd.body if not (isinstance(st, ast.Expr) and isinstance(st.value, ast.Constant)
+                                         and isinstance(st.value.value, str))]
+    if len(body) != 1 or not isinstance(body[0], ast.If):
+        return None
+    glob = dict(fn.__globals__)
+
+    def const(node):
+        if isinstance(node, ast.Constant):
+            return True, node.value
+        if isinstance(node, ast.UnaryOp) and isinstance(node.op, ast.USub) and isinstance(node.operand, ast.Constant) \
+                and isinstance(node.operand.value, int) and not isinstance(node.operand.value, bool):
+            return True, -node.operand.value
+        if isinstance(node, ast.Attribute) and isinstance(node.value, ast.Name) and node.value.id != param \
+                and isinstance(glob.get(node.value.id), type):
+            cls = glob[node.value.id]
+            if node.attr in vars(cls):
+                return True, vars(cls)[node.attr]
+        return False, None
+
+    rows = []
+    node = body[0]
+    while True:
+        t = node.test
+        if not (isinstance(t, ast.Compare) and is_name(t.left, param) and len(t.ops) == 1 and isinstance(t.ops[0], ast.Eq)):
+            return None
+        ok, key = const(t.comparators[0])
+        if not ok or len(node.body) != 1 or not isinstance(node.body[0], ast.Return) or node.body[0].value is None:
+            return None
+        ok2, val = const(node.body[0].value)
+        if not ok2:
+            return None
+        rows.append((key, val))
+        if len(node.orelse) == 1 and isinstance(node.orelse[0], ast.If):
+            node = node.orelse[0]
+            continue
+        if len(node.orelse) == 1 and isinstance(node.orelse[0], ast.Return) and node.orelse[0].value is not None:
+            ok3, dflt = const(node.orelse[0].value)
+            if not ok3:
+                return None
+            break
+        if not node.orelse:
+            dflt = None                 # falls off the end of the function
+            break
+        return None
+    keys = [k for k, _ in rows]
+    if all(isinstance(k, int) and not isinstance(k, bool) for k in keys):
+        kind = "int"
+    elif all(isinstance(k, str) for k in keys):
+        kind = "text"
+    else:
+        return None
+    try:
+        rows_txt = [((F.z(k) if kind == "int" else text(k)), _tv(v)) for k, v in rows]
+        dflt_txt = _tv(dflt)
+    except ValueError:
+        return None
+    ident = "tb_" + "".join(c if c.isalnum() else "_" for c in fn.__qualname__)
+    entry = (kind, rows_txt, dflt_txt)
+    if ident in LOOKUPS and LOOKUPS[ident] != entry:
+        raise RuntimeError("two different lookup functions named " + ident)
+    LOOKUPS[ident] = entry
+    return ident, kind
+
+
+def literal(v):
+    """a live constant -> literal mexpr text, or None"""
+    if isinstance(v, bool):
+        return None
+    if isinstance(v, int):
+        return f"EInt {F.z(v)}"
+    if isinstance(v, float) and v == v and abs(v) != float("inf"):
+        return f"EFloat {F.q(v)}"
+    if isinstance(v, str):
+        return f"EText {text(v)}"
+    return None
+
+
 def tr_expr(ctx, e, in_loop):
     """metadata expression -> Coq mexpr text, or None when not recognised"""
     chart_ok = (not ctx.src_is_set) or in_loop
+    bound = {ctx.src, ctx.chart_var, ctx.shift_param, ctx.raise_param, ctx.out, "cls"} | set(ctx.locals)
+    bound |= {v[0] for v in (ctx.tmap, ctx.tset) if v is not None}
+    # a local variable bound earlier by `name = <expr>`: its expression
+    if isinstance(e, ast.Name):
+        if e.id in ctx.locals:
+            txt, loc_in_loop = ctx.locals[e.id]
+            return txt if (txt is not None and (in_loop or not loc_in_loop)) else None
+        return None
     if isinstance(e, ast.Attribute) and isinstance(e.value, ast.Name):
         if chart_ok and e.value.id == ctx.chart_var:
+            if ctx.chart_cls is not None and e.attr in ctx.chart_cls().objs:
+                return None                      # a list object is not a metadata value
             return f"EAttr false {F.z(field_id(e.attr))}"
         if ctx.src_is_set and e.value.id == ctx.src:
             return f"EAttr true {F.z(field_id(e.attr))}"
+        # an attribute of the target that no earlier statement assigned: its class default
+        for on_set, tv in ((False, ctx.tmap), (True, ctx.tset)):
+            if tv is not None and e.value.id == tv[0] and (on_set, e.attr) not in ctx.assigned \
+                    and e.attr in fields_of(tv[1]):
+                lit = literal(getattr(tv[1](), e.attr))
+                return None if lit is None else f"EDefault {F.boolean(on_set)} {F.z(field_id(e.attr))} ({lit})"
+        # a constant of a class of the converter module (SMMapChartTypes.KB7_SINGLE, QuaMapMode.KEYS_7)
+        if e.value.id not in bound and isinstance(ctx.glob.get(e.value.id), type) and e.attr in vars(ctx.glob[e.value.id]):
+            return literal(vars(ctx.glob[e.value.id])[e.attr])
+        return None
+    # a or b
+    if isinstance(e, ast.BoolOp) and isinstance(e.op, ast.Or) and len(e.values) == 2:
+        a, b = tr_expr(ctx, e.values[0], in_loop), tr_expr(ctx, e.values[1], in_loop)
+        return None if a is None or b is None else f"EOr ({a}) ({b})"
+    # a if c else b
+    if isinstance(e, ast.IfExp):
+        c, a, b = (tr_expr(ctx, n, in_loop) for n in (e.test, e.body, e.orelse))
+        return None if None in (c, a, b) else f"EIf ({c}) ({a}) ({b})"
+    # len(<chart>.<list>)   /   <chart>.<list>.first_offset()
+    def chart_list(n):
+        if (chart_ok and isinstance(n, ast.Attribute) and is_name(n.value, ctx.chart_var) and ctx.chart_cls is not None
+                and n.attr in ctx.chart_cls().objs):
+            return n.attr
+        return None
+    if isinstance(e, ast.Call) and not e.keywords and len(e.args) == 1 and is_name(e.func, "len") \
+            and ctx.glob.get("len", len) is len and chart_list(e.args[0]) is not None:
+        return f"ELen {F.z(list_id(chart_list(e.args[0])))}"
+    if isinstance(e, ast.Call) and not e.keywords and not e.args and isinstance(e.func, ast.Attribute) \
+            and e.func.attr == "first_offset" and chart_list(e.func.value) is not None:
+        from reamber.base.lists.TimedList import TimedList
+        lcls = type(ctx.chart_cls().objs[chart_list(e.func.value)])
+        if lcls.first_offset is TimedList.first_offset:
+            return f"EFirstOffset {F.z(list_id(chart_list(e.func.value)))}"
+        return None
+    # Class.table_function(e): a function that is a finite table with a default (read off its own source)
+    if isinstance(e, ast.Call) and not e.keywords and len(e.args) == 1 and isinstance(e.func, ast.Attribute) \
+            and isinstance(e.func.value, ast.Name) and e.func.value.id not in bound \
+            and isinstance(ctx.glob.get(e.func.value.id), type):
+        fn = getattr(ctx.glob[e.func.value.id], e.func.attr, None)
+        tb = lookup_table(fn) if callable(fn) else None
+        if tb is not None:
+            a = tr_expr(ctx, e.args[0], in_loop)
+            if a is None:
+                return None
+            return f"{'ELookupInt' if tb[1] == 'int' else 'ELookupText'} (fst {tb[0]}) (snd {tb[0]}) ({a})"
         return None
     if isinstance(e, ast.Constant):
         if isinstance(e.value, bool):
@@ -308,6 +480,13 @@ def tr_stmt(ctx, s, in_loop):
             if is_map(cls) and ctx.tmap is None:
                 ctx.tmap, ctx.tmap_in_loop = (var, cls), in_loop
                 return []
+        # name = <expr>: a local variable, bound once, used (inlined) by later metadata expressions
+        taken = {v[0] for v in (ctx.tmap, ctx.tset) if v is not None} | {ctx.out} | set(ctx.locals) | set(ctx.glob)
+        if isinstance(s, ast.Assign) and var not in taken and not hasattr(__import__('builtins'), var):
+            e = tr_expr(ctx, val, in_loop)
+            ctx.locals[var] = (e, in_loop)
+            shown = e if e is not None else f"EOpaque {coq_string(ast.unparse(val))}"
+            return [f"SLocal {coq_string(var)} ({shown})"]
         return unk
     # <tgt>.<attr> = ...
     if isinstance(s, ast.Assign) and len(s.targets) == 1 and isinstance(s.targets[0], ast.Attribute) \
@@ -331,6 +510,7 @@ def tr_stmt(ctx, s, in_loop):
         e = tr_expr(ctx, s.value, in_loop)
         if e is None:
             e = f"EOpaque {coq_string(ast.unparse(s.value))}"
+        ctx.assigned.add((on_set, attr))
         return [f"SMeta {F.boolean(on_set)} {F.z(field_id(attr))} ({e})"]
     # <tmap>.stack().column += <shift parameter>
     if isinstance(s, ast.AugAssign) and isinstance(s.op, ast.Add):
@@ -583,6 +763,7 @@ def conv_id(name):
 
 TYPES = """(* syntax of what the translator (harness/tables/convert.py) recognised in a convert() body - fixed text *)
 Inductive rcell := RNum (q : Q) | RBool (b : bool) | RStr (t : list Z) | RList0 | RNaN | RNone.
+Inductive tv := TVText (t : list Z) | TVInt (z : Z) | TVNone.        (* a value of a table function *)
 Inductive mexpr :=
 | EAttr (of_set : bool) (f : Z)      (* <source chart>.<f>, or <source mapset>.<f> when of_set *)
 | EInt (z : Z) | EFloat (q : Q) | EText (t : list Z)   (* literals *)
@@ -593,6 +774,13 @@ Inductive mexpr :=
 | EStr (e : mexpr)                   (* {e} inside an f-string *)
 | ECat (a b : mexpr)                 (* adjacent parts of an f-string *)
 | ELevelName                         (* <source mapset>.level_name(<source chart>) *)
+| ELookupInt (tb : list (Z * tv)) (dflt : tv) (e : mexpr)        (* a function `if x == k: return v ... else: return dflt` *)
+| ELookupText (tb : list (list Z * tv)) (dflt : tv) (e : mexpr)  (* the same with string keys *)
+| EOr (a b : mexpr)                  (* a or b *)
+| EIf (c a b : mexpr)                (* a if c else b *)
+| ELen (l : Z)                       (* len(<source chart>.<l>) *)
+| EFirstOffset (l : Z)               (* <source chart>.<l>.first_offset() *)
+| EDefault (on_set : bool) (f : Z) (v : mexpr)   (* <target>.<f> read before any assignment: its class default v *)
 | EOpaque (txt : string).            (* anything else: the value is not modelled *)
 Inductive msource := FromColumn (c : Z) | FromComputed (txt : string).
 Inductive step :=
@@ -600,6 +788,7 @@ Inductive step :=
 | SMeta (on_set : bool) (f : Z) (e : mexpr)          (* <target chart | target mapset>.<f> = e *)
 | SShift                                             (* <target chart>.stack().column += <shift argument> *)
 | SGuardMode (on_set : bool) (f : Z)                 (* if raise_bad_mode and not <target>.<f>: raise ValueError *)
+| SLocal (name : string) (e : mexpr)                 (* name = e; later uses of the name carry e *)
 | SUnknown (txt : string).                           (* NOT recognised: fails conv_okb *)
 Inductive shape := ShOne | ShEach | ShMerge.
 Record conv_desc := mkConv {
@@ -620,6 +809,11 @@ def generate():
     for kind, table, fn in (("field", "field_names", field_id), ("list", "list_names", list_id), ("col", "column_names", FR.col_id)):
         rows = sorted((fn(n), n) for k, n in names if k == kind)
         lines.append(f"Definition {table} : list (Z * string) := " + F.lst([f"({F.z(a)}, {coq_string(b)})" for a, b in rows]) + ".")
+    for ident in sorted(LOOKUPS):
+        kind, rows, dflt = LOOKUPS[ident]
+        ty = "Z" if kind == "int" else "list Z"
+        lines.append(f"Definition {ident} : list ({ty} * tv) * tv := ("
+                     + F.lst([f"({k}, {v})" for k, v in rows]) + f", {dflt}).")
     for i in infos:
         lines.extend(i["lines"])
     lines.append("Definition converters : list (Z * conv_desc) := "
